@@ -122,6 +122,14 @@ pub struct Ints {
     m: BTreeMap<String, u64>,
 }
 
+/// an externally tagged enum as the DOCUMENT ROOT: newtype variants over a struct and over a map, a struct variant
+#[derive(Serialize, Deserialize, Debug, PartialEq, Clone)]
+pub enum RootE {
+    Tcp(Server),
+    Pool(BTreeMap<String, Server>),
+    Tuned { level: u8, owner: OwnerN },
+}
+
 /// the reduced witness of F7
 #[derive(Serialize, Deserialize, Debug, PartialEq, Clone)]
 pub struct S {
@@ -155,7 +163,7 @@ macro_rules! canon_debug {
         }
     )*};
 }
-canon_debug!(Config, Plain, Dates, Ints, S, Owner, Mode, Datetime, Date, Time, i64, String, Vec<i64>, f64, bool, Pt);
+canon_debug!(Config, Plain, Dates, Ints, RootE, S, Owner, Mode, Datetime, Date, Time, i64, String, Vec<i64>, f64, bool, Pt);
 
 /// the sign and payload of a NaN are not TOML data: comparisons of decoded trees use the canonical NaN
 fn norm_nan(v: &toml::Value) -> toml::Value {
@@ -273,6 +281,7 @@ fn with_target_doc(target: &str, text: &str) -> Option<Vec<(&'static str, Option
         "plain" => doc_routes::<Plain>(text),
         "dates" => doc_routes::<Dates>(text),
         "ints" => doc_routes::<Ints>(text),
+        "roote" => doc_routes::<RootE>(text),
         "s" => doc_routes::<S>(text),
         "owner" => doc_routes::<Owner>(text),
         _ => return None,
@@ -584,6 +593,11 @@ fn with_type_val(ty: &str, seed: u64, c17: bool) -> String {
         "plain" => go!(g_plain(&mut r)),
         "dates" => go!(g_dates(&mut r)),
         "ints" => go!(g_ints(&mut r)),
+        // (a struct variant at the root is refused by design: not generated)
+        "roote" => go!(match r.below(2) {
+            0 => RootE::Tcp(g_server(&mut r)),
+            _ => RootE::Pool(g_servers(&mut r)),
+        }),
         "s" => go!(S { when: if seed == 0 { "1979-05-27T07:32:00Z".parse().unwrap() } else { g_dt(&mut r) } }),
         "owner" => go!(Owner { name: g_str(&mut r), dob: g_opt(&mut r, g_dt) }),
         _ => "bad-type".into(),
@@ -918,6 +932,125 @@ fn tval13(flavour: &str, tree: &str) -> String {
     format!("canon={canon} tf={tf} ti={ti} tt={tt} text={text}")
 }
 
+// ------------------------------------------------------------------------------------------
+// the derived types as `Dec` strings (c13typed.rs): the permanent validation of the `TySeed` description of serde
+// ------------------------------------------------------------------------------------------
+
+pub trait ToDec {
+    fn to_dec(&self) -> String;
+}
+use crate::c13typed::{dec_date, dec_dt, dec_f32, dec_f64, dec_map, dec_named, dec_opt, dec_seq, dec_str, dec_time};
+macro_rules! todec_int {
+    ($($t:ty),*) => {$(
+        impl ToDec for $t {
+            fn to_dec(&self) -> String {
+                format!("i{self}")
+            }
+        }
+    )*};
+}
+todec_int!(i8, i16, i32, i64, u8, u16, u32, u64, usize);
+impl ToDec for bool {
+    fn to_dec(&self) -> String {
+        format!("b{}", *self as u8)
+    }
+}
+impl ToDec for f64 {
+    fn to_dec(&self) -> String {
+        dec_f64(*self)
+    }
+}
+impl ToDec for f32 {
+    fn to_dec(&self) -> String {
+        dec_f32(*self)
+    }
+}
+impl ToDec for String {
+    fn to_dec(&self) -> String {
+        dec_str(self)
+    }
+}
+impl ToDec for Datetime {
+    fn to_dec(&self) -> String {
+        dec_dt(self)
+    }
+}
+impl ToDec for Date {
+    fn to_dec(&self) -> String {
+        dec_date(self)
+    }
+}
+impl ToDec for Time {
+    fn to_dec(&self) -> String {
+        dec_time(self)
+    }
+}
+impl<T: ToDec> ToDec for Option<T> {
+    fn to_dec(&self) -> String {
+        dec_opt(self.as_ref().map(|x| x.to_dec()))
+    }
+}
+impl<T: ToDec> ToDec for Vec<T> {
+    fn to_dec(&self) -> String {
+        dec_seq(&self.iter().map(|x| x.to_dec()).collect::<Vec<_>>())
+    }
+}
+impl<T: ToDec> ToDec for BTreeMap<String, T> {
+    fn to_dec(&self) -> String {
+        dec_map(&self.iter().map(|(k, v)| (k.clone(), v.to_dec())).collect())
+    }
+}
+macro_rules! todec_struct {
+    ($t:ty { $($f:ident),* }) => {
+        impl ToDec for $t {
+            fn to_dec(&self) -> String {
+                dec_named("S{", &[$((stringify!($f).to_string(), self.$f.to_dec())),*], "}")
+            }
+        }
+    };
+}
+todec_struct!(Owner { name, dob });
+todec_struct!(Server { ip, port, role });
+todec_struct!(Config { title, n, f, flag, when, tags, owner, servers, mode, opt, last });
+todec_struct!(Pt { x, y });
+todec_struct!(OwnerN { name, nick });
+todec_struct!(Plain { title, n, f, flag, tags, owner, servers, pts, mode, modes, nested, opt, last });
+todec_struct!(Dates { d, t, dt, list, od });
+todec_struct!(Ints { u, us, i, a, b, c, d, e, g, x, list, o, m });
+todec_struct!(S { when });
+impl ToDec for Mode {
+    fn to_dec(&self) -> String {
+        let tag = |n: &str| format!("E{}", hex(n.as_bytes()));
+        match self {
+            Mode::Fast => tag("Fast"),
+            Mode::Slow => tag("Slow"),
+            Mode::Custom(n) => format!("{}:{}", tag("Custom"), n.to_dec()),
+            Mode::Tuned { level, label } => {
+                format!("{}{}", tag("Tuned"), dec_named("{", &[("level".to_string(), level.to_dec()), ("label".to_string(), label.to_dec())], "}"))
+            }
+            Mode::Pair(a, b) => format!("{}({};{})", tag("Pair"), a.to_dec(), b.to_dec()),
+        }
+    }
+}
+
+/// the routes of c13typed.rs for a derived type; `true` = a single-value target
+pub fn derived_routes(target: &str, text: &str) -> Option<(bool, Vec<(&'static str, Option<String>)>)> {
+    use crate::c13typed::{doc_routes, val_routes, Derived};
+    use std::marker::PhantomData as P;
+    Some(match target {
+        "config" => (false, doc_routes(&Derived::<Config>(P), text)),
+        "plain" => (false, doc_routes(&Derived::<Plain>(P), text)),
+        "dates" => (false, doc_routes(&Derived::<Dates>(P), text)),
+        "ints" => (false, doc_routes(&Derived::<Ints>(P), text)),
+        "s" => (false, doc_routes(&Derived::<S>(P), text)),
+        "owner" => (false, doc_routes(&Derived::<Owner>(P), text)),
+        "vowner" => (true, val_routes(&Derived::<Owner>(P), text)),
+        "vmode" => (true, val_routes(&Derived::<Mode>(P), text)),
+        "vpt" => (true, val_routes(&Derived::<Pt>(P), text)),
+        _ => return None,
+    })
+}
+
 pub fn run(line: &str) -> String {
     let p: Vec<&str> = line.split(' ').collect();
     match (p[0], p.len()) {
@@ -940,6 +1073,9 @@ pub fn run(line: &str) -> String {
         }
         ("val", 3) => with_type_val(p[1], p[2].parse().unwrap(), false),
         ("tval", 3) => tval13(p[1], p[2]),
+        ("typed", 4) => crate::c13typed::typed(p[1], p[2], p[3], false),
+        ("typedv", 4) => crate::c13typed::typed(p[1], p[2], p[3], true),
+        ("tcheck", 5) => crate::c13typed::tcheck(p[1], p[2], p[3], p[4]),
         _ => "bad-op".into(),
     }
 }
